@@ -35,6 +35,8 @@ RULE = ("full products: unit scalar = geometry x validity x multiplier x filter 
 ASSUMPTIONS = [
     "scope: 2-d meshes n in {(3,2),(1,4),(5,5)} (+ (4,3),(2,3) thorough), anisotropic cells, nm / m / km (+ um, far "
     "offset) scales, renamed and permuted axis names, distinct units; 1-3 components; multipliers default, 1e-9, 1e-6, 1, 1e3",
+    "value types: float64 everywhere; scalar / contour plots additionally with integer- and Boolean-typed scalar fields, "
+    "vector plots with integer-typed vector fields (no filter on another mesh); complex fields are not plotted",
     "the plot kinds keep using image / quiver / contour artists (AxesImage, Quiver, Axes.contour); a re-implementation on "
     "other artist types would need the observer, not the property, to be adapted",
     "values handed to matplotlib are compared for equality (no arithmetic is involved); coordinates with tolerance "
@@ -149,16 +151,25 @@ def _layouts():
 LAYOUTS = _layouts()
 
 
-def make_field(geom, layout, valid, seed):
-    """returns (field, inplane) with inplane = (index of the component along axis 0, along axis 1) or None"""
+def make_field(geom, layout, valid, seed, dtype="float"):
+    """returns (field, inplane) with inplane = (index of the component along axis 0, along axis 1) or None.
+    dtype 'int' / 'bool': the values are stored in an integer- / Boolean-typed array (legitimate fields: a cell count,
+    a mask) - hidden cells still have to be hidden and the drawn numbers are the stored ones"""
     nv, vdims, mp = LAYOUTS[layout]
     n = geom.n
     arr = C.tracer(n, nv, seed)
+    dkw = {} if dtype == "float" else {"dtype": {"int": int, "bool": bool}[dtype]}
     if nv == 1:
+        if dtype == "int":
+            return df.Field(geom.mesh, nvdim=1, value=arr.astype(int), valid=valid, unit="rad", **dkw), None
+        if dtype == "bool":
+            return df.Field(geom.mesh, nvdim=1, value=(arr % 2 == 0), valid=valid, unit="rad", **dkw), None
         # angles in (0, 2 pi) so that the scalar doubles as a hue; still pairwise distinct
         arr = 0.2 + arr * (5.8 / (arr.max() + 1))
         return df.Field(geom.mesh, nvdim=1, value=arr, valid=valid, unit="rad"), None
     arr = arr - (arr.max() + 1) / 2 + 0.25  # both signs -> all quadrants of the in-plane angle, never zero
+    if dtype == "int":
+        arr = (C.tracer(n, nv, seed) - (n[0] * n[1] * nv) // 2).astype(int)  # integers of both signs, pairwise distinct
     if mp == "sel":
         d = geom.dims
         third = "w"
@@ -176,7 +187,7 @@ def make_field(geom, layout, valid, seed):
             kw["vdims"] = vdims
         if mp is not None:
             kw["vdim_mapping"] = mp(geom.dims)
-        f = df.Field(geom.mesh, nvdim=nv, value=arr, valid=valid, unit="A/m", **kw)
+        f = df.Field(geom.mesh, nvdim=nv, value=arr, valid=valid, unit="A/m", **kw, **dkw)
         vd = list(f.vdims)
         mapping = dict(f.vdim_mapping) if f.vdim_mapping else {}
     inpl = []
@@ -435,12 +446,13 @@ def unit_scalar(ctx):
     mult = ctx.choose("multiplier", MULTS[:4] if quick else MULTS)
     fkind = ctx.choose("filter", [None, "same", "other", "tiny"])
     kind = ctx.choose("kind", ["scalar", "contour"])
+    dt = ctx.choose("value-type", ["float", "int", "bool"] if fkind in (None, "same") else ["float"])
     geom = Geom(gname)
     if kind == "contour" and min(geom.n) < 2:
         ctx.note("contour-needs-2x2")
         raise engine.Skip()
     valid = _validity(geom.n, vkind)
-    f, _ = make_field(geom, "s", valid, ctx.seed)
+    f, _ = make_field(geom, "s", valid, ctx.seed, dtype=dt)
     filt, fzero = _filter(geom, fkind)
     before = C.field_snap(f)
     fbefore = None if filt is None else C.field_snap(filt)
@@ -540,7 +552,8 @@ def unit_vector(ctx):
     mult = ctx.choose("multiplier", [None, 1e-9, 1e3] if quick else MULTS)
     geom = Geom(gname)
     valid = _validity(geom.n, vkind)
-    f, inplane = make_field(geom, layout, valid, ctx.seed)
+    dt = ctx.choose("value-type", ["float", "int"] if layout in ("v2-default", "v3-abc-cyclic") and mult is None else ["float"])
+    f, inplane = make_field(geom, layout, valid, ctx.seed, dtype=dt)
     vd = list(f.vdims)
     varg = ctx.choose("vdims", _vdims_args(f, inplane))
     if varg is None:
